@@ -1,3 +1,4 @@
+import FormulaicVerif.Gen.NullTables
 /-! # Missing-data handling: which rows survive, and what the caller's drop set becomes (C06)
 
 Mirrors, as the code is,
@@ -18,8 +19,13 @@ Mirrors, as the code is,
   `ModelSpecs.get_model_matrix` (joint / one call per part) down to
   `FormulaMaterializer.get_model_matrix`.
 
-What `find_nulls` flags for an evaluated factor is a PARAMETER (`Factor.nulls`), supplied per case
-from the implementation and checked there against an independent per-dtype definition of "null".
+An evaluated factor is a `Value`: the SHAPE of what the expression evaluated to (scalar constant,
+list, pandas / narwhals Series, 0/1/2/n-d ndarray, DataFrame, scipy sparse matrix, dict of the
+former — nested, with hidden `__…` members —, or an object of an unknown type) with, per cell, the
+outcome of the container's cell-level null test (`numpy.isnan` / `Series.isnull` / `is_null`; the
+PARAMETER, supplied per case from an independent per-cell definition of "null"). `find_nulls`
+(which rows are flagged, which values make it raise), `as_columns`, the `map_dict` traversal of
+`_encode_evaled_factor` and the `drop_rows` overload each column reaches are COMPUTED here.
 
 The behaviours that differed between the tree as first examined (`legacy`) and the tree after the
 `fix:` commits (`current`) are switches of `Variant`, so that the old label-based semantics
@@ -27,13 +33,26 @@ The behaviours that differed between the tree as first examined (`legacy`) and t
 those positions) stays executable and the negative witnesses in `Props/C06.lean` are about real code.
 The engine runs `current`.
 
-Cell values are abstract (`ρ`); index labels are abstract (`L`). Core Lean only. -/
+Cell contents are abstract (`ρ`); index labels are abstract (`L`). Core Lean only (plus the
+generated table `Gen/NullTables.lean`: the members of `NAAction`). -/
 namespace FormulaicVerif.Model.Nulls
 
 /-- `NAAction` -/
 inductive Policy where
   | drop | raise | ignore
 deriving DecidableEq, Repr, Inhabited
+
+/-- the name of the `NAAction` member -/
+def Policy.name : Policy → String
+  | .drop => "DROP"
+  | .raise => "RAISE"
+  | .ignore => "IGNORE"
+
+def policyOfName : String → Option Policy
+  | "DROP" => some .drop
+  | "RAISE" => some .raise
+  | "IGNORE" => some .ignore
+  | _ => none
 
 inductive Err where
   /-- `ValueError`: "`x` contains null values after evaluation" (na_action = raise) -/
@@ -47,6 +66,21 @@ inductive Err where
   /-- `ValueError: negative dimensions are not allowed`: more drop positions than rows reach
   `numpy.ones(nrows - len(drop_rows))` -/
   | negativeDimensions
+  /-- `ValueError: Constant value is null, invalidating all rows.` (`find_nulls` of a scalar or a
+  0-d array that is NaN) -/
+  | constantNull
+  /-- `ValueError: Cannot check for null indices for arrays of more than 2 dimensions.` -/
+  | tooManyDims
+  /-- `ValueError: No implementation of `find_nulls()` for type …` -/
+  | noFindNulls
+  /-- `ValueError: No implementation of `drop_rows()` for values of type …` -/
+  | noDropRows
+  /-- the value cannot become columns of a model matrix whatever the drop set is (0-d or >2-d
+  array, sparse matrix, 2-d member of a dict, unknown object): `as_columns`, an encoder or
+  `_combine_columns` fails on it. The model does not follow such a value any further. -/
+  | notColumns
+  /-- `ValueError: 'x' is not a valid NAAction` -/
+  | invalidNAAction
 deriving DecidableEq, Repr, Inhabited
 
 /-- The switches that the `fix:` commits flipped. -/
@@ -63,12 +97,19 @@ structure Variant where
   emptyHonours : Bool
   /-- NarwhalsMaterializer restores the (positionally reduced) pandas index on pandas output -/
   nwIndex : Bool
+  /-- constants: `find_nulls` accepts numpy scalars that derive from neither `int` nor `float`,
+  and `drop_rows` hands a scalar (`int`, `float`, `str`, numpy number) back unchanged -/
+  scalarOK : Bool
+  /-- `find_nulls` has an overload for `pandas.DataFrame` (rows with a null cell) -/
+  frameNulls : Bool
 deriving DecidableEq, Repr
 
 /-- the tree before the C06 repairs -/
-def legacy : Variant := ⟨true, false, false, false, false, false⟩
+def legacy : Variant := ⟨true, false, false, false, false, false, false, false⟩
+/-- the tree before the two value-shape repairs (scalar constants, data frames) -/
+def beforeValues : Variant := ⟨false, true, true, true, true, true, false, false⟩
 /-- the tree under test (what the engine runs, what the property theorems are about) -/
-def current : Variant := ⟨false, true, true, true, true, true⟩
+def current : Variant := ⟨false, true, true, true, true, true, true, true⟩
 
 /-! ## The drop set (a Python `set[int]`) -/
 
@@ -87,8 +128,8 @@ def insertSorted (x : Nat) : List Nat → List Nat
 /-- `sorted(drop_rows)` -/
 def sorted (s : DropSet) : List Nat := s.foldr insertSorted []
 
-/-- `_check_for_nulls(name, values, na_action, drop_rows)`; `nulls` is what `find_nulls(values)`
-returned. Returns the (mutated) set. -/
+/-- the body of `_check_for_nulls` once `nulls = find_nulls(values)` is known. Returns the
+(mutated) set. -/
 def checkForNulls (p : Policy) (nulls : List Nat) (d : DropSet) : Except Err DropSet :=
   match p with
   | .ignore => .ok d
@@ -128,11 +169,127 @@ def dropByLabel {L ρ : Type} [DecidableEq L] (labels : List L) (xs : List ρ) (
   | .error e => .error e
   | .ok bad => .ok (((labels.zip xs).filter (fun p => !(bad.contains p.1))).map (·.2))
 
-/-- how the values of an evaluated factor are stored, i.e. which `drop_rows` overload they reach -/
+def mapE {α β ε : Type} (f : α → Except ε β) : List α → Except ε (List β)
+  | [] => .ok []
+  | a :: r =>
+    match f a with
+    | .error e => .error e
+    | .ok b =>
+      match mapE f r with
+      | .error e => .error e
+      | .ok bs => .ok (b :: bs)
+
+/-! ## Evaluated factor values -/
+
+/-- One cell of an evaluated factor: its content, and what the cell-level null test of the
+container it sits in (`numpy.isnan`, `Series.isnull`, `is_null`) says about it. -/
+structure Cell (ρ : Type) where
+  val : ρ
+  null : Bool
+deriving DecidableEq, Repr
+
+/-- which scalar overload of `find_nulls` a constant reaches -/
+inductive ScalarKind where
+  /-- `int` / `float` (and what derives from them: `bool`, `numpy.float64`) — `numpy.isnan` decides -/
+  | pyNum
+  /-- `str` — never null -/
+  | pyStr
+  /-- a numpy number / `numpy.bool_` that derives from neither (`numpy.int64`, `numpy.float32`), or one
+  of pandas' null scalars (`pandas.NA`, `pandas.NaT`) -/
+  | npNum
+deriving DecidableEq, Repr, Inhabited
+
+/-- What a factor expression evaluated to (the object inside `FactorValues`), by the type that
+`find_nulls` / `as_columns` / `drop_rows` dispatch on. Tables are stored by column. -/
+inductive Value (ρ : Type) where
+  /-- `None` -/
+  | none
+  /-- a scalar constant -/
+  | scalar (k : ScalarKind) (c : Cell ρ)
+  /-- Python `list` -/
+  | pylist (cells : List (Cell ρ))
+  /-- `narwhals.Series` -/
+  | nwSeries (cells : List (Cell ρ))
+  /-- `pandas.Series` -/
+  | series (cells : List (Cell ρ))
+  /-- 0-d `numpy.ndarray` -/
+  | array0 (c : Cell ρ)
+  /-- 1-d `numpy.ndarray` -/
+  | array1 (cells : List (Cell ρ))
+  /-- 2-d `numpy.ndarray` of shape `(nrows, cols.length)` -/
+  | array2 (nrows : Nat) (cols : List (List (Cell ρ)))
+  /-- `numpy.ndarray` with more than two dimensions, `shape[0] = nrows` -/
+  | arrayN (nrows : Nat)
+  /-- `pandas.DataFrame` -/
+  | frame (nrows : Nat) (cols : List (List (Cell ρ)))
+  /-- `scipy.sparse.spmatrix` (`csc`: it is a `csc_matrix`); implicit zeros are cells that are not null -/
+  | sparse (csc : Bool) (nrows : Nat) (cols : List (List (Cell ρ)))
+  /-- `dict` of values; the flag says that the key is a `str` starting with `__` (a hidden member) -/
+  | dict (items : List (Bool × Value ρ))
+  /-- an object of any other type -/
+  | other
+
+/-! ### `null_handling.find_nulls` -/
+
+/-- the positions, counted from `i`, of the cells that are null -/
+def nullFrom {ρ : Type} : Nat → List (Cell ρ) → List Nat
+  | _, [] => []
+  | i, c :: r => if c.null then i :: nullFrom (i + 1) r else nullFrom (i + 1) r
+
+/-- `numpy.flatnonzero(values.isnull())` / `numpy.flatnonzero(numpy.isnan(values))` /
+`values.is_null().arg_true()` -/
+def nullPositions {ρ : Type} (cells : List (Cell ρ)) : List Nat := nullFrom 0 cells
+
+/-- does row `i` of the table have a null cell? -/
+def rowAny {ρ : Type} (cols : List (List (Cell ρ))) (i : Nat) : Bool :=
+  cols.any (fun col => match col[i]? with | some c => c.null | none => false)
+
+/-- `numpy.flatnonzero(numpy.any(numpy.isnan(values), axis=1))`; for a sparse matrix the rows of
+the stored entries that are NaN -/
+def nullRows2 {ρ : Type} (n : Nat) (cols : List (List (Cell ρ))) : List Nat :=
+  (List.range n).filter (rowAny cols)
+
+/-- `_drop_nulls_scalar` -/
+def scalarNulls {ρ : Type} (c : Cell ρ) : Except Err (List Nat) :=
+  if c.null then .error .constantNull else .ok []
+
+mutual
+/-- `find_nulls(values)` (single dispatch on the type of the value) -/
+def findNulls {ρ : Type} (v : Variant) : Value ρ → Except Err (List Nat)
+  | .none => .ok []
+  | .scalar .pyNum c => scalarNulls c
+  | .scalar .pyStr _ => .ok []
+  | .scalar .npNum c => if v.scalarOK then scalarNulls c else .error .noFindNulls
+  | .pylist cells => .ok (nullPositions cells)      -- `find_nulls(pandas.Series(values))`
+  | .nwSeries cells => .ok (nullPositions cells)
+  | .series cells => .ok (nullPositions cells)
+  | .array0 c => scalarNulls c
+  | .array1 cells => .ok (nullPositions cells)
+  | .array2 n cols => .ok (nullRows2 n cols)
+  | .arrayN _ => .error .tooManyDims
+  | .frame n cols => if v.frameNulls then .ok (nullRows2 n cols) else .error .noFindNulls
+  | .sparse _ n cols => .ok (nullRows2 n cols)
+  | .dict items => findNullsItems v items
+  | .other => .error .noFindNulls
+/-- `for vs in values.values(): indices.update(find_nulls(vs))` -/
+def findNullsItems {ρ : Type} (v : Variant) : List (Bool × Value ρ) → Except Err (List Nat)
+  | [] => .ok []
+  | (_, x) :: r =>
+    match findNulls v x with
+    | .error e => .error e
+    | .ok a =>
+      match findNullsItems v r with
+      | .error e => .error e
+      | .ok b => .ok (a ++ b)
+end
+
+/-! ### `null_handling.drop_rows` -/
+
+/-- how a column is stored, i.e. which row-removing `drop_rows` overload it reaches -/
 inductive Store where
   /-- `pandas.Series` carrying the data frame's index (also the columns of a `DataFrame`) -/
   | series
-  /-- `numpy.ndarray`, 1-d or 2-d, or a dict of them (every sub-column is treated alike) -/
+  /-- `numpy.ndarray` -/
   | ndarray
   /-- `narwhals.Series` -/
   | nwSeries
@@ -148,22 +305,18 @@ inductive Encoder where
   | contrastsC
   /-- `hashed(...)`: `numpy.array(values)` -/
   | hashed
+  /-- no encoder of its own, but the value is declared to be of kind `constant`
+  (`FactorValues(x, kind="constant")`): `_encode_constant` builds `x * numpy.ones(nrows - len(drop_rows))`
+  and `drop_rows` is never called on it -/
+  | constant
 deriving DecidableEq, Repr, Inhabited
-
-/-- One evaluated factor: its `n` cells, what `find_nulls` flagged, and the dispatch data. -/
-structure Factor (ρ : Type) where
-  vals : List ρ
-  nulls : List Nat
-  store : Store
-  encoder : Encoder
-deriving Repr
 
 /-- `pandas.Series` overload of `null_handling.drop_rows` -/
 def dropSeries {L ρ : Type} [DecidableEq L] (v : Variant) (labels : List L) (xs : List ρ)
     (d : List Nat) : Except Err (List ρ) :=
   if v.labelDrops then dropByLabel labels xs d else dropPositional xs d
 
-/-- `null_handling.drop_rows(values, indices)` (single dispatch on the storage type) -/
+/-- the row-removing overloads of `null_handling.drop_rows`, by storage type -/
 def dropRows {L ρ : Type} [DecidableEq L] (v : Variant) (labels : List L) (s : Store) (xs : List ρ)
     (d : List Nat) : Except Err (List ρ) :=
   match s with
@@ -172,17 +325,149 @@ def dropRows {L ρ : Type} [DecidableEq L] (v : Variant) (labels : List L) (s : 
   | .nwSeries => .ok (dropFilter xs d)
   | .pylist => .ok (dropFilter xs d)
 
-/-- the column(s) a factor contributes after its encoder removed rows `d` (= `sorted(drop_rows)`) -/
-def encodeFactor {L ρ : Type} [DecidableEq L] (v : Variant) (labels : List L) (f : Factor ρ)
-    (d : List Nat) : Except Err (List ρ) :=
+/-- `numpy.delete(values, indices, axis=0)` on a 2-d array / `values[mask]` on a CSR matrix: the
+same rows go from every column; a position that is not a row raises `IndexError` -/
+def dropTable {ρ : Type} (n : Nat) (cols : List (List ρ)) (d : List Nat) :
+    Except Err (Nat × List (List ρ)) :=
+  if d.all (fun i => decide (i < n)) then
+    .ok ((dropFrom d 0 (List.range n)).length, cols.map (fun c => dropFrom d 0 c))
+  else .error .indexError
+
+/-- `null_handling.drop_rows(values, indices)` (single dispatch on the type of the value) -/
+def dropRowsV {L ρ : Type} [DecidableEq L] (v : Variant) (labels : List L) :
+    Value ρ → List Nat → Except Err (Value ρ)
+  | .pylist cells, d =>
+    match dropRows v labels .pylist cells d with
+    | .error e => .error e
+    | .ok r => .ok (.pylist r)
+  | .nwSeries cells, d =>
+    match dropRows v labels .nwSeries cells d with
+    | .error e => .error e
+    | .ok r => .ok (.nwSeries r)
+  | .series cells, d =>
+    match dropRows v labels .series cells d with
+    | .error e => .error e
+    | .ok r => .ok (.series r)
+  | .array1 cells, d =>
+    match dropRows v labels .ndarray cells d with
+    | .error e => .error e
+    | .ok r => .ok (.array1 r)
+  | .array0 _, _ => .error .indexError   -- `numpy.delete(…, axis=0)` on a 0-d array: `AxisError`
+  | .array2 n cols, d =>
+    match dropTable n cols d with
+    | .error e => .error e
+    | .ok (k, cs) => .ok (.array2 k cs)
+  | .arrayN n, d =>
+    match dropTable n ([] : List (List (Cell ρ))) d with
+    | .error e => .error e
+    | .ok (k, _) => .ok (.arrayN k)
+  | .sparse csc n cols, d =>   -- (a `csc_matrix` goes through CSR and back)
+    match dropTable n cols d with
+    | .error e => .error e
+    | .ok (k, cs) => .ok (.sparse csc k cs)
+  | .scalar k c, _ => if v.scalarOK then .ok (.scalar k c) else .error .noDropRows
+  | .none, _ => .error .noDropRows
+  | .frame _ _, _ => .error .noDropRows
+  | .dict _, _ => .error .noDropRows
+  | .other, _ => .error .noDropRows
+
+/-! ### From an evaluated factor to the columns it contributes -/
+
+/-- `as_columns(values)`: a 2-d array, a data frame and a `csc_matrix` become a dict of their
+columns; 0-d and >2-d arrays raise; everything else is handed on as it is -/
+def asColumns {ρ : Type} : Value ρ → Except Err (Value ρ)
+  | .array2 _ cols => .ok (.dict (cols.map (fun c => (false, .array1 c))))
+  | .frame _ cols => .ok (.dict (cols.map (fun c => (false, .series c))))
+  | .sparse true n cols => .ok (.dict (cols.map (fun c => (false, .sparse true n [c]))))
+  | .array0 _ => .error .notColumns
+  | .arrayN _ => .error .notColumns
+  | x => .ok x
+
+mutual
+/-- the members the `map_dict` wrapper of `_encode_evaled_factor` applies the encoder to: every
+non-dict member of a (nested) dict except the hidden ones, in order; a non-dict value itself -/
+def leaves {ρ : Type} : Value ρ → List (Value ρ)
+  | .dict items => leavesItems items
+  | .none => [.none]
+  | .scalar k c => [.scalar k c]
+  | .pylist cells => [.pylist cells]
+  | .nwSeries cells => [.nwSeries cells]
+  | .series cells => [.series cells]
+  | .array0 c => [.array0 c]
+  | .array1 cells => [.array1 cells]
+  | .array2 n cols => [.array2 n cols]
+  | .arrayN n => [.arrayN n]
+  | .frame n cols => [.frame n cols]
+  | .sparse csc n cols => [.sparse csc n cols]
+  | .other => [.other]
+def leavesItems {ρ : Type} : List (Bool × Value ρ) → List (Value ρ)
+  | [] => []
+  | (hidden, x) :: r => (if hidden then [] else leaves x) ++ leavesItems r
+end
+
+/-- a single column: its cells -/
+def colCells {ρ : Type} : Value ρ → Option (Store × List (Cell ρ))
+  | .pylist cells => some (.pylist, cells)
+  | .nwSeries cells => some (.nwSeries, cells)
+  | .series cells => some (.series, cells)
+  | .array1 cells => some (.ndarray, cells)
+  | _ => none
+
+/-- One evaluated factor: its value and the encoder it carries. -/
+structure Factor (ρ : Type) where
+  value : Value ρ
+  encoder : Encoder
+
+def isNone {ρ : Type} : Value ρ → Bool
+  | .none => true
+  | _ => false
+
+/-- `_encode_evaled_factor`: the column objects the factor's encoder produces after removing rows
+`d` (= `sorted(drop_rows)`) -/
+def encodeValue {L ρ : Type} [DecidableEq L] (v : Variant) (labels : List L) (n : Nat)
+    (sparseOut : Bool) (f : Factor ρ) (d : List Nat) : Except Err (List (Value ρ)) :=
   match f.encoder with
-  | .default => if d.isEmpty then .ok f.vals else dropRows v labels f.store f.vals d
+  | .default =>
+    -- `_extract_columns_for_encoding`, then `if drop_rows: values = drop_nulls(values, indices=drop_rows)`
+    -- on every member
+    match asColumns f.value with
+    | .error e => .error e
+    | .ok x => mapE (fun leaf => if d.isEmpty then .ok leaf else dropRowsV v labels leaf d) (leaves x)
   | .contrastsC =>
     -- `pandas.Series(values)` keeps the index of a Series and gives anything else a RangeIndex
-    match f.store with
-    | .series => dropSeries v labels f.vals d
-    | _ => dropSeries v (List.range f.vals.length) f.vals d
-  | .hashed => if v.hashedHonours then dropPositional f.vals d else .ok f.vals
+    match colCells f.value with
+    | some (.series, cells) =>
+      match dropSeries v labels cells d with
+      | .error e => .error e
+      | .ok r => .ok [.series r]
+    | some (_, cells) =>
+      match dropSeries v (List.range cells.length) cells d with
+      | .error e => .error e
+      | .ok r => .ok [.series r]
+    | none => .error .notColumns
+  | .hashed =>
+    match colCells f.value with
+    | some (_, cells) =>
+      if v.hashedHonours then
+        match dropPositional cells d with
+        | .error e => .error e
+        | .ok r => .ok [.array1 r]
+      else .ok [.array1 cells]
+    | none => .error .notColumns
+  | .constant =>
+    -- `_encode_constant`: `nrows = self.nrows - len(drop_rows)`; `numpy.ones(nrows)` raises for a negative length,
+    -- the sparse branch builds `[value] * nrows`, which is just empty then
+    match f.value with
+    | .scalar _ c =>
+      if !sparseOut && decide (n < d.length) then .error .negativeDimensions
+      else .ok [.array1 (List.replicate (n - d.length) c)]
+    | _ => .error .notColumns
+
+/-- the column objects a factor hands to `_combine_columns`. A factor whose value is `None` is left
+out of its terms (`_get_scoped_terms`: `if ….values.__wrapped__ is not None`) and is never encoded. -/
+def encodeFactor {L ρ : Type} [DecidableEq L] (v : Variant) (labels : List L) (n : Nat)
+    (sparseOut : Bool) (f : Factor ρ) (d : List Nat) : Except Err (List (Value ρ)) :=
+  if isNone f.value then .ok [] else encodeValue v labels n sparseOut f d
 
 /-! ## One part of the (structured) spec -/
 
@@ -212,26 +497,15 @@ structure Part (ρ : Type) where
   mat : Mat
   intercept : Bool
   factors : List (Factor ρ)
-deriving Repr
 
 structure Matrix (L ρ : Type) where
   nrows : Nat
   /-- length of the `Intercept` column when the part has one -/
   intercept : Option Nat
-  /-- per factor, the cells that survived (in output order) -/
-  cols : List (List ρ)
+  /-- per factor, per column it contributes, the cells that survived (in output order) -/
+  cols : List (List (List (Cell ρ)))
   index : IndexOut L
 deriving DecidableEq, Repr
-
-def mapE {α β ε : Type} (f : α → Except ε β) : List α → Except ε (List β)
-  | [] => .ok []
-  | a :: r =>
-    match f a with
-    | .error e => .error e
-    | .ok b =>
-      match mapE f r with
-      | .error e => .error e
-      | .ok bs => .ok (b :: bs)
 
 /-- the index `_combine_columns` attaches for pandas output -/
 def outIndex {L : Type} [DecidableEq L] (v : Variant) (labels : List L) (n : Nat) (m : Mat)
@@ -252,34 +526,76 @@ def outIndex {L : Type} [DecidableEq L] (v : Variant) (labels : List L) (n : Nat
   | .pandas, .arrow => .ok (.range (n - d.length))
   | _, _ => .ok .none
 
-/-- the lengths of the columns handed to `_combine_columns` (intercept first) -/
-def colLens {ρ : Type} (icpt : Option Nat) (cols : List (List ρ)) : List Nat :=
-  (match icpt with | some k => [k] | none => []) ++ cols.map List.length
+/-- what `_combine_columns` can make of a column object -/
+inductive ColShape (ρ : Type) where
+  /-- a vector of cells -/
+  | vec (cells : List (Cell ρ))
+  /-- a constant, broadcast over the rows of the matrix -/
+  | const (c : Cell ρ)
+  /-- nothing that can be a column -/
+  | bad
 
-/-- `_combine_columns`: every column (and the index, when there is one) must have one common length -/
+def colShape {ρ : Type} (x : Value ρ) : ColShape ρ :=
+  match colCells x with
+  | some (_, cells) => .vec cells
+  | none =>
+    match x with
+    | .scalar _ c => .const c
+    | _ => .bad
+
+def isBad {ρ : Type} (x : Value ρ) : Bool :=
+  match colShape x with
+  | .bad => true
+  | _ => false
+
+/-- the length of a column object that has one -/
+def colLen? {ρ : Type} (x : Value ρ) : Option Nat :=
+  match colShape x with
+  | .vec cells => some cells.length
+  | _ => none
+
+/-- the lengths of the columns handed to `_combine_columns` (intercept first); constants have none -/
+def colLens {ρ : Type} (icpt : Option Nat) (cols : List (Value ρ)) : List Nat :=
+  (match icpt with | some k => [k] | none => []) ++ cols.filterMap colLen?
+
+/-- the cells of a column in a matrix of `k` rows -/
+def cellsOf {ρ : Type} (k : Nat) (x : Value ρ) : List (Cell ρ) :=
+  match colShape x with
+  | .vec cells => cells
+  | .const c => List.replicate k c
+  | .bad => []
+
+/-- `_combine_columns`: every column (and the index, when there is one) must have one common
+length; constants are broadcast. (Whether the container of a given output type accepts a constant
+is not modelled: where it does not, the call fails whatever the drop set is.) -/
 def combine {L ρ : Type} (v : Variant) (n : Nat) (d : List Nat) (icpt : Option Nat)
-    (cols : List (List ρ)) (idx : IndexOut L) : Except Err (Matrix L ρ) :=
-  match colLens icpt cols with
+    (cols : List (List (Value ρ))) (idx : IndexOut L) : Except Err (Matrix L ρ) :=
+  if cols.flatten.any isBad then .error .notColumns else
+  match colLens icpt cols.flatten with
   | [] =>
     -- `if not cols:` an empty frame on the index / `numpy.empty((nrows, 0))`
     match idx with
-    | .labels ls => .ok ⟨ls.length, icpt, cols, idx⟩
+    | .labels ls => .ok ⟨ls.length, icpt, cols.map (·.map (cellsOf ls.length)), idx⟩
     | .range _ =>
       let k := if v.emptyHonours then n - d.length else n
-      .ok ⟨k, icpt, cols, .range k⟩
-    | .none => .ok ⟨if v.emptyHonours then n - d.length else n, icpt, cols, idx⟩
+      .ok ⟨k, icpt, cols.map (·.map (cellsOf k)), .range k⟩
+    | .none =>
+      let k := if v.emptyHonours then n - d.length else n
+      .ok ⟨k, icpt, cols.map (·.map (cellsOf k)), idx⟩
   | l :: rest =>
     if rest.all (fun k => k == l) then
       match idx with
-      | .labels ls => if ls.length == l then .ok ⟨l, icpt, cols, idx⟩ else .error .lengthMismatch
-      | .range _ => .ok ⟨l, icpt, cols, .range l⟩
-      | .none => .ok ⟨l, icpt, cols, idx⟩
+      | .labels ls =>
+        if ls.length == l then .ok ⟨l, icpt, cols.map (·.map (cellsOf l)), idx⟩
+        else .error .lengthMismatch
+      | .range _ => .ok ⟨l, icpt, cols.map (·.map (cellsOf l)), .range l⟩
+      | .none => .ok ⟨l, icpt, cols.map (·.map (cellsOf l)), idx⟩
     else .error .lengthMismatch
 
 /-- `_build_model_matrix(spec, drop_rows=d)` for one part, as far as rows are concerned -/
 def buildModelMatrix {L ρ : Type} [DecidableEq L] (v : Variant) (labels : List L) (n : Nat)
     (o : Output) (d : List Nat) (p : Part ρ) : Except Err (Matrix L ρ) :=
-  match mapE (fun f => encodeFactor v labels f d) p.factors with
+  match mapE (fun f => encodeFactor v labels n (o == .sparse) f d) p.factors with
   | .error e => .error e
   | .ok cols =>
     -- `_encode_constant(1, …)`: `numpy.ones(nrows - len(drop_rows))` fails for a negative length; the sparse
@@ -292,13 +608,24 @@ def buildModelMatrix {L ρ : Type} [DecidableEq L] (v : Variant) (labels : List 
 
 /-! ## `FormulaMaterializer.get_model_matrix` -/
 
+/-- `_check_for_nulls(name, values, na_action, drop_rows)` on an evaluated factor: nothing is looked
+at under IGNORE; otherwise `find_nulls(values)` runs first (and may raise) -/
+def checkFactor {ρ : Type} (v : Variant) (p : Policy) (f : Factor ρ) (d : DropSet) :
+    Except Err DropSet :=
+  match p with
+  | .ignore => .ok d
+  | _ =>
+    match findNulls v f.value with
+    | .error e => .error e
+    | .ok nulls => checkForNulls p nulls d
+
 /-- step 1: evaluate every factor once, threading the shared set through `_check_for_nulls` -/
-def evalFactors {ρ : Type} (p : Policy) : List (Factor ρ) → DropSet → Except Err DropSet
+def evalFactors {ρ : Type} (v : Variant) (p : Policy) : List (Factor ρ) → DropSet → Except Err DropSet
   | [], d => .ok d
   | f :: r, d =>
-    match checkForNulls p f.nulls d with
+    match checkFactor v p f d with
     | .error e => .error e
-    | .ok d' => evalFactors p r d'
+    | .ok d' => evalFactors v p r d'
 
 /-- `drop_rows if drop_rows is not None else set()` -/
 def initialSet : Option DropSet → DropSet
@@ -310,7 +637,7 @@ final content of the set object that was used (the caller's object when one was 
 def getModelMatrix {L ρ : Type} [DecidableEq L] (v : Variant) (labels : List L) (n : Nat)
     (pol : Policy) (o : Output) (parts : List (Part ρ)) (dropIn : Option DropSet) :
     Except Err (List (Matrix L ρ) × DropSet) :=
-  match evalFactors pol (parts.flatMap (·.factors)) (initialSet dropIn) with
+  match evalFactors v pol (parts.flatMap (·.factors)) (initialSet dropIn) with
   | .error e => .error e
   | .ok d1 =>
     match mapE (buildModelMatrix v labels n o (sorted d1)) parts with
@@ -420,5 +747,33 @@ def call {L ρ : Type} [DecidableEq L] (v : Variant) (labels : List L) (n : Nat)
                | none, _ => none
                | some _, some d1 => some d1
                | some s, none => some s⟩
+
+/-! ## `na_action` as the caller writes it -/
+
+/-- the `na_action` argument: an `NAAction` member, or a string -/
+inductive NAInput where
+  | member (p : Policy)
+  | text (s : String)
+deriving DecidableEq, Repr
+
+/-- `NAAction(na_action)` in `ModelSpec.__attrs_post_init__`: a member is itself; a string is looked
+up among the VALUES of the enum's members (`Gen.naActionMembers`, generated from the live package);
+anything else is `ValueError: … is not a valid NAAction` -/
+def parseNAAction : NAInput → Except Err Policy
+  | .member p => .ok p
+  | .text s =>
+    match FormulaicVerif.Gen.naActionMembers.find? (fun m => m.2 == s) with
+    | some m =>
+      match policyOfName m.1 with
+      | some p => .ok p
+      | none => .error .invalidNAAction
+    | none => .error .invalidNAAction
+
+/-- a complete call with the null policy as the caller wrote it (the spec is built first) -/
+def callNA {L ρ : Type} [DecidableEq L] (v : Variant) (labels : List L) (n : Nat) (na : NAInput)
+    (o : Output) (parts : List (Part ρ)) (c : CallRec) : Except Err (CallOut L ρ) :=
+  match parseNAAction na with
+  | .error e => .error e
+  | .ok pol => call v labels n pol o parts c
 
 end FormulaicVerif.Model.Nulls
